@@ -426,6 +426,16 @@ func modelCheck(r *fw.Rec, tree jast.Node, doc interface{}, tag string, op judge
 			return o, false
 		}
 	}
+	if ev.OddObjectCallbacks > 0 && o.Kind == "error" {
+		// does the port agree with a model in which $each and $sift reject
+		// callbacks that declare no parameter or more than three?
+		ev2 := &refeval.Evaluator{Max: 2000000, MaxRange: ev.MaxRange, RejectOddObjectCallbacks: true}
+		mv2, merr2 := ev2.Run(tree, decodeDoc(docJSON), nil)
+		if r2 := judge.Compare(o, mv2, merr2, op); r2.OK && !r2.Inconclusive {
+			r.Violation("callback:each-sift-reject-0-or-4-parameters", "a function value ignores surplus arguments and receives missing ones as 'no value', but $each/$sift refuse a callback that declares no parameter or more than three: "+res.Detail, map[string]any{"tag": tag})
+			return o, false
+		}
+	}
 	if o.Kind == "panic" {
 		sig = "panic:" + o.Panic.Site + ":" + o.Panic.Class
 	}
